@@ -277,6 +277,17 @@ func genC15(g *gen) {
 		}
 	}
 
+	// by-values with the default and with explicit tolerances on data that holds neighbours of the reference value
+	// (1 ± 2^-20 next to 1): the same mask for float32 and float64
+	for _, dt := range []string{"f32", "f64"} {
+		for _, mode := range []string{"soft", "hard"} {
+			for _, lits := range []string{"#k1 #k0", "#k1 #k0 #k0", "#k1 #k1", "#k2 #k0", "#k1 #k1 #k0"} {
+				g.emit("vset=4", fmt.Sprintf("mnew %s 16 C %s", dt, g.maskBits(16, "none")), fmt.Sprintf("mpred values $0 %s %s", mode, lits))
+				g.emit("vset=4", fmt.Sprintf("mnew %s 2,8 C %s", dt, g.maskBits(16, "rand")), fmt.Sprintf("mpred values $0 %s %s", mode, lits))
+			}
+		}
+	}
+
 	// --- C. inspection: every mask over small tensors
 	maxN := 8
 	if th {
